@@ -74,10 +74,10 @@ func VerifC08_Refresh() {
 	// database back (double fault): fail closed is then the only correct behaviour.
 	liveOpenRefused := false
 	for _, f := range injected {
-		if strings.HasPrefix(f, "open /work/h-") {
+		if strings.HasPrefix(f, "open /work/"+idOfCDP(url1)) {
 			liveOpenRefused = true
 		}
-		if strings.HasPrefix(f, "rename /work/crl_") && strings.Contains(f, " -> /work/h-") && len(injected) == 2 && strings.HasPrefix(injected[0], "rename /work/crl_") {
+		if strings.HasPrefix(f, "rename /work/crl_") && strings.Contains(f, " -> /work/"+idOfCDP(url1)) && len(injected) == 2 && strings.HasPrefix(injected[0], "rename /work/crl_") {
 			liveOpenRefused = true // move-in refused and move-back refused
 		}
 	}
